@@ -29,6 +29,11 @@ def shards(tier, seed):
     out = [("cons", c) for c in cons.chunk(ts, 64 if tier == "quick" else 192)]
     vm = ["ramp"] if tier == "quick" else ["ramp", "extreme"]
     out += [("hist", t, v, p) for t in universe.rh(tier) for v in vm for p in ("dirtyhole", "dirtyhole2")]
+    # process history: before an array type with a non-identity axis order is used, its LAYOUT TWIN (the array whose extents
+    # are this one's in memory order, in C order: same strides in memory order) has been built and instantiated
+    Sc, Arr, St = xt.Sc, xt.Arr, xt.St
+    out.append(("layout-twins", [Arr(Sc("f64"), (3, 2), (1, 0)), Arr(Sc("i16"), (2, 3, 4), (1, 2, 0)), Arr(Sc("f32"), (None, 2), (1, 0)), Arr(Sc("i64"), (None, None), (1, 0)),
+                                 St(Sc("i8"), Arr(Sc("f64"), (2, 3), (1, 0)), Sc("i64")), Arr(universe.S_S, (2, 3), (1, 0)), Arr(Sc("u8"), (4, 2, 3), (2, 0, 1))]))
     return out[seed % len(out):] + out[: seed % len(out)]
 
 
@@ -206,8 +211,27 @@ def places_for(tier):
     return f
 
 
+def layout_twin_prelude(t):
+    for a in xt.subtypes(t):
+        if a[0] == "A" and tuple(a[3]) != tuple(range(len(a[2]))):
+            v = xt.gen(a, "ramp")
+            shape = tuple(v["shape"][i] for i in a[3])  # the extents in memory order
+            tw = ("A", a[1], tuple(None if a[2][i] is None else a[2][i] for i in a[3]), tuple(range(len(a[2]))))
+            try:
+                tv = xt.gen(tw, "ramp")
+                if tuple(tv["shape"]) != shape:
+                    tv = {"shape": shape, "items": {idx: xt.gen(a[1], "ramp") for idx in np.ndindex(*shape)}}
+                xt.construct(tw, xt.to_py(tw, tv))
+            except Exception:
+                pass
+
+
 def run_shard(shard, tier, seed):
     res = common.ShardResult()
+    if shard[0] == "layout-twins":
+        for t in shard[1]:
+            layout_twin_prelude(t)
+        shard = ("cons", shard[1])
     if shard[0] == "cons":
         n = 0
         for t, vmode, v, form, pname in cons.enumerate_cases(shard[1], cons.VMODES, FORMS, places_for(tier)):
